@@ -461,6 +461,24 @@ func perturb(r *mrand.Rand, k *configv1.Config) {
 	case 29:
 		o.CookieNamePrefix = pick(r, []string{"p", "a;b"})
 	}
+	// collisions that only exist after the merge: one half in the default block, the other in an override
+	if k.DefaultOidcConfig != nil && r.Intn(12) == 0 {
+		for _, ch := range k.Chains {
+			for _, f := range ch.Filters {
+				if ov := f.GetOidcOverride(); ov != nil {
+					path := pick(r, []string{"/bye", "/oauth/cb", "/callback"})
+					if r.Intn(2) == 0 {
+						k.DefaultOidcConfig.Logout = &oidcv1.LogoutConfig{Path: path, RedirectUri: "https://idp.test/logout"}
+						ov.CallbackUri = "https://tenant.test" + path
+					} else {
+						k.DefaultOidcConfig.CallbackUri = "https://app.test" + path
+						ov.Logout = &oidcv1.LogoutConfig{Path: path}
+					}
+					return
+				}
+			}
+		}
+	}
 }
 
 func genConfig(r *mrand.Rand) *configv1.Config {
